@@ -424,6 +424,34 @@ func (fg *FuncGen) call(v *ssa.Call, c *ssa.CallCommon, instr ssa.Instruction) {
 			}
 		}
 	}
+	// `assigns *argN` where the argument is a pointer boxed into an interface (json.Decoder.Decode(&a)): the callee
+	// writes the variable the pointer refers to
+	if con != nil {
+		for _, a := range con.Assigns {
+			if !strings.HasPrefix(a, "*arg") {
+				continue
+			}
+			idx := -1
+			fmt.Sscan(a[4:], &idx)
+			if idx < 0 || idx >= len(c.Args) {
+				continue
+			}
+			mi, ok := c.Args[idx].(*ssa.MakeInterface)
+			if !ok {
+				continue
+			}
+			pt, ok := mi.X.Type().Underlying().(*types.Pointer)
+			if !ok {
+				continue
+			}
+			cell := map[string]bool{}
+			fg.g.typeFamilies(pt.Elem(), cell)
+			for f := range cell {
+				eff[f] = true
+				closureRefs[f] = append(closureRefs[f], fg.valueOf(mi.X).S)
+			}
+		}
+	}
 	var fams []string
 	for f := range eff {
 		fams = append(fams, f)
